@@ -356,6 +356,11 @@ def finish(ctx, pid, P, known_bits=None, rule="", assumptions=None, extra=None, 
     for fid, hits in sorted(known_hits.items()):
         lines.append("KNOWN-FINDING: property=%s %s: %s (%d case(s) this run, e.g. %s#%d)" %
                      (pid, fid, known[fid].get("what", ""), len(hits), hits[0][0], hits[0][1]))
+    for fid, k in sorted(known.items()):
+        # a listed open finding that this run's cases happened not to exercise is still announced
+        if k.get("status") == "open" and fid not in known_hits:
+            lines.append("KNOWN-FINDING: property=%s %s: %s (0 case(s) this run: not exercised by the generated inputs)" %
+                         (pid, fid, k.get("what", "")))
 
     def write_replay(tag, payload):
         p = os.path.join(VERIF, "replays", "%s-%d-%s.json" % (pid, ctx.seed, tag))
